@@ -100,6 +100,7 @@ var c06Forms = []customForm{
 	{"extend-error-ctx", true},
 	{"extend-sametype", false}, {"extend-sametype-skipcopy", false},
 	{"declared-method-ctx-missing", false}, {"declared-method-ctx-available", false},
+	{"extend-regex-ctx", false},
 }
 
 // ctxLayout: where the context arguments of the top method stand.
@@ -164,7 +165,7 @@ func buildC06(id string, form customForm, nest []nesting, wrapMode string, propG
 		params = "ctxa string, source " + s.Go("conv")
 		sc.SrcIdx, sc.CtxIdx, ctxTypes = 1, []int{0}, []*space.Ty{tStr}
 		mlines = append(mlines, "context ctxa")
-	case "extend-ctx-int", "extend-error-ctx":
+	case "extend-ctx-int", "extend-error-ctx", "extend-regex-ctx":
 		params = "ctxa int, source " + s.Go("conv")
 		sc.SrcIdx, sc.CtxIdx, ctxTypes = 1, []int{0}, []*space.Ty{tInt}
 		mlines = append(mlines, "context ctxa")
@@ -233,6 +234,11 @@ func buildC06(id string, form customForm, nest []nesting, wrapMode string, propG
 		sc.ConvLines = append(sc.ConvLines, "extend Rx"+id+".*")
 		sc.FuncsSrc = fmt.Sprintf("func Rx%sA(s %s) %s { %s }\nfunc Rx%sB() {}\n", id, sG, tG, body(3000, ""), id)
 		reg(&model.Custom{Name: "Rx" + id + "A", Src: s0, Dst: t0}, "conv.Rx"+id+"A")
+	case "extend-regex-ctx":
+		// regex-selected function whose context parameter is declared by a comment on the function itself
+		sc.ConvLines = append(sc.ConvLines, "extend Rc"+id+".*")
+		sc.FuncsSrc = fmt.Sprintf("// goverter:context ctxv\nfunc Rc%sA(s %s, ctxv int) %s { %s }\nfunc Rc%sB(a, b int) {}\n", id, sG, tG, body(3500, " + 7*ctxv"), id)
+		reg(&model.Custom{Name: "Rc" + id + "A", Src: s0, Dst: t0, Ctx: []*space.Ty{tInt}, ArgsFmt: []string{"src", "ctx:0"}}, "conv.Rc"+id+"A")
 	case "extend-conv-arg":
 		sc.ConvLines = append(sc.ConvLines, "extend "+fn)
 		sc.FuncsSrc = fmt.Sprintf("func %s(c %s, s %s) %s { _ = c; %s }\n", fn, sc.ID, sG, tG, body(4000, ""))
